@@ -148,15 +148,19 @@ def run_property(ctx, pid):
             shrunk += 1
         ctx.violation(f["sig"], "%s fails on the implementation: %s (after %d operations, last: %s)" % (pid, f["detail"], len(ops), ops[-1] if ops else "-"),
                       {"ops": ops, "detail": f["detail"], "how": "./check %s --replay <this file>" % pid})
-    # model / implementation disagreement without a property-level failure
+    # model / implementation disagreement (the model is faithful also where findings are open, so no
+    # mismatch is ever explained by a finding) and driver failures are violations of their own
     relevant = {"C04": ("state", "result"), "C05": ("state",), "C06": ("result",)}[pid]
     rel = [k for k in kinds if k in relevant]
-    if (mism < 0 or rel) and not mine:
+    if mism < 0 or rc2 != 0:
+        ctx.violation(low + "-driver-failed", "the model driver did not complete (rc=%s): %s" % (rc2, mlog[-600:]),
+                      {"driver_output": mlog[-3000:]}, found_input=False)
+    elif rel:
         first = re.search(r"MISMATCH.*\n.*\n.*", mlog)
         ctx.violation(low + "-correspondence", "Coq model and implementation disagree (%s case(s), kinds %s); the theorems of "
                       "Properties/%s.v no longer speak about this code: %s" % (mism, sorted(set(kinds)), pid, (first.group(0) if first else mlog[-600:])[:900]),
                       {"correspondence": "props/C04 step-by-step result/state comparison", "driver_output": mlog[:4000]},
-                      found_input=False)
+                      found_input=bool(mine))
     samples = []
     with open(out) as f:
         for i, line in enumerate(f):
